@@ -195,7 +195,7 @@ def main(tier):
         for pair in range(sched.STRING_PAIRS):
             pts[pair] = (sched.string_points(0, pair=pair), sched.string_points(1, pair=pair))
         pts0, pts1 = pts[0][0][0], pts[0][1][0]
-        for k in range(480 if tier == 'quick' else 8000):
+        for k in range(360 if tier == 'quick' else 8000):
             pair = k % sched.STRING_PAIRS
             (q0, n0), (q1, n1) = pts[pair]
             if k % 3 == 2:
@@ -214,6 +214,29 @@ def main(tier):
                                              'their ends (two different values with long strings): a thread raised or '
                                              'returned another text' % (i, j),
                                    'results': [str(x)[:300] for x in res], 'expected': [x[:300] for x in ref]})
+        # per-call settings must stay per call: A prints with explicit settings, B (and a later sequential call)
+        # print the same value without any; A preempted at every first execution of a package line - B runs to
+        # its end there, or stops too and lets A finish first
+        cpts, cn = sched.config_points()
+        cuse = cpts if tier != 'quick' else cpts[::max(1, len(cpts) // 60)]
+        ncfg = 0
+        r3 = rng(PROP + '/config')
+        for k in cuse:
+            for j in (None, r3.choice(cpts)):
+                res, later, ref = sched.run_config_preemption(k, j)
+                letters = [outcome_letter(res[x], ref[x]) for x in range(2)]
+                ncfg += 1
+                run.count(1)
+                if any(x != 'P' for x in letters) or later != ref[1]:
+                    viol += 1
+                    if viol <= 6:
+                        run.violation({'kind': 'config-preemption', 'k': k, 'j': j, 'outcomes': letters,
+                                       'detail': 'A = pformat(v, width=30, sort_dict_keys=True, indent=2, max_seq_len=5, depth=3) '
+                                                 'preempted after %d package lines; B = pformat(v) %s: a thread - or a later '
+                                                 'sequential pformat(v) - returned another text than on its own'
+                                                 % (k, 'ran to its end meanwhile' if j is None else 'ran %d lines, then A ended first' % j),
+                                       'results': [str(x)[:300] for x in res], 'later': later[:300], 'expected': [x[:300] for x in ref]})
+        run.coverage['config_preemption_schedules'] = ncfg
         run.coverage['double_preemption_schedules'] = ndouble
         run.coverage['double_preemption_points'] = [len(pts0), len(pts1)]
         run.coverage['single_preemption_points'] = nsweep
@@ -243,7 +266,7 @@ def main(tier):
             'instance of a subclass of a built-in type (bounded and random schedules over the same lines); 2-3 threads printing values that SHARE sub-objects, gated on the line events of '
             '_run_pretty (where visits start and end): every single-preemption schedule up to 70 (thorough: 140) lines '
             'and seeded random interleavings; same or different widths per thread; 2-3 threads laying out different values, '
-            '2 threads printing different values with long strings under two preemptions (A stops after i lines, B after j, A ends, B ends; 480 / 8000 seeded (i, j) over 4 pairs of values - string at top level / in a list / dict / nested - two thirds at points where a package line runs for the 1st or 2nd time, one third uniform); gated on the line events of best_layout and both fitting predicates (seeded random interleavings, runs of '
+            '2 threads, one printing with explicit settings and one without (plus a later sequential call), the first preempted at every first execution of a package line; 2 threads printing different values with long strings under two preemptions (A stops after i lines, B after j, A ends, B ends; 360 / 8000 seeded (i, j) over 4 pairs of values - string at top level / in a list / dict / nested - two thirds at points where a package line runs for the 1st or 2nd time, one third uniform); gated on the line events of best_layout and both fitting predicates (seeded random interleavings, runs of '
             '1..120 lines); 2-3 threads printing mixed values (split strings, comments, calls, shared objects) gated on EVERY '
             'line executed inside the package (seeded random interleavings, runs of 1..2000 lines); a sweep with ONE preemption at '
             'the first execution of every distinct package line of a print of never-printed classes (fresh namedtuple, tuple '
@@ -258,6 +281,11 @@ def replay(path):
     if 'schedule' not in p:
         print(json.dumps(p, indent=1)[:3000])
         return 1
+    if p.get('kind') == 'config-preemption':
+        res, later, ref = sched.run_config_preemption(p['k'], p['j'])
+        letters = [outcome_letter(res[i], ref[i]) for i in range(2)]
+        print(letters, later == ref[1], [str(x)[:150] for x in res])
+        return 0 if all(x == 'P' for x in letters) and later == ref[1] else 1
     if p.get('kind') == 'double-preemption':
         res, ref = sched.run_double_preemption(p['i'], p['j'], pair=p.get('pair', 0))
         letters = [outcome_letter(res[i], ref[i]) for i in range(2)]
